@@ -165,14 +165,21 @@ func (p *Pool) Put(x interface{}) {
 		return
 	}
 	sched.Op("pool-put", p)
-	if !p.reg && sched.E != nil {
+	if !p.reg {
 		p.reg = true
-		sched.OnReset(func() { p.items = nil; p.reg = false })
-	}
-	if sched.E == nil {
-		return // free mode: drop, like a GC'd pool
+		if sched.E != nil {
+			sched.OnReset(func() { p.items = nil; p.reg = false })
+		} else {
+			// sequential harnesses outside an execution: keep the LIFO reuse (that is what makes
+			// "returned to the pool while still in use" visible) and empty the pool when the next
+			// controlled execution starts
+			sched.OnNextExecStart(func() { p.items = nil; p.reg = false })
+		}
 	}
 	p.items = append(p.items, x)
+	// the object is published now: let others run before the caller goes on (a caller that keeps
+	// using what it just put back races with the next Get)
+	sched.Op("pool-put-done", p)
 }
 
 // Map mirrors sync.Map (insertion-ordered Range).
